@@ -598,6 +598,24 @@ func c09CheckRR(k *c09Checker, w *c09World, res *c09Result, c2s, s2c []byte, eng
 	k.out = append(k.out, o)
 }
 
+// c09WireKey is a short stable identity of a raw case's input.
+func c09WireKey(rc *c09RawCase) string {
+	var parts []string
+	for _, w := range rc.Wire {
+		if len(w) > 12 {
+			w = fmt.Sprintf("%s..(%d)", w[:8], len(w))
+		}
+		parts = append(parts, w)
+	}
+	s := "[" + strings.Join(parts, ",") + "]"
+	if len(rc.Extras) == 1 {
+		s += "+" + rc.Extras[0][0]
+	} else if len(rc.Extras) > 1 {
+		s += fmt.Sprintf("+%d-extras", len(rc.Extras))
+	}
+	return s
+}
+
 func c09HandlerMDs(calls []c09HandlerCall) []string {
 	var out []string
 	for _, c := range calls {
@@ -681,14 +699,14 @@ func c09RunRawClient(t *testing.T, c c09Case) (k *c09Checker, engine string) {
 		switch {
 		case class == "invalid" || (class == "grey" && rejected):
 			if !rejected {
-				k.viol(fmt.Sprintf("raw-invalid-bin-accepted/%q", c.Raw.Wire), "malformed base64 %q: grpc-status=%s, handler saw %v", c.Raw.Wire, grpcStatus, c09HandlerMDs(calls))
+				k.viol(fmt.Sprintf("raw-invalid-bin-accepted/req/%s", c09WireKey(c.Raw)), "malformed base64 %q: grpc-status=%s, handler saw %v", c.Raw.Wire, grpcStatus, c09HandlerMDs(calls))
 			} else {
 				k.out = append(k.out, "rawc:"+class+"-base64:INTERNAL,handler-not-run")
 			}
 			return
 		}
 		if grpcStatus != "0" || len(calls) != 1 {
-			k.viol(fmt.Sprintf("raw-valid-rejected/req/%q/%q", c.Raw.Wire, c.Raw.Extras), "well-formed request: grpc-status=%s, handler ran %d times | %s", grpcStatus, len(calls), c09FramesString(log))
+			k.viol(fmt.Sprintf("raw-valid-rejected/req/%s", c09WireKey(c.Raw)), "well-formed request: grpc-status=%s, handler ran %d times | %s", grpcStatus, len(calls), c09FramesString(log))
 			return
 		}
 		k.compareMD("server-incoming", calls[0].MD, ref, map[string][]string{":authority": {"auth-x"}, "user-agent": {"raw-ua/1"}})
@@ -820,7 +838,7 @@ func c09RunRawServer(t *testing.T, c c09Case) (k *c09Checker, engine string) {
 		rejected := res.Err != nil && status.Code(res.Err) == codes.Internal
 		if class == "invalid" || (class == "grey" && rejected) {
 			if !rejected {
-				k.viol(fmt.Sprintf("raw-invalid-bin-accepted/%s/%q", c.Raw.Pos, c.Raw.Wire), "malformed base64 %q from the server: err=%v header=%s trailer=%s", c.Raw.Wire, res.Err, c09MDString(res.Header), c09MDString(res.Trailer))
+				k.viol(fmt.Sprintf("raw-invalid-bin-accepted/%s/%s", c.Raw.Pos, c09WireKey(c.Raw)), "malformed base64 %q from the server: err=%v header=%s trailer=%s", c.Raw.Wire, res.Err, c09MDString(res.Header), c09MDString(res.Trailer))
 			} else {
 				k.out = append(k.out, "raws:"+class+"-base64:INTERNAL/"+c.Raw.Pos)
 			}
@@ -828,11 +846,11 @@ func c09RunRawServer(t *testing.T, c c09Case) (k *c09Checker, engine string) {
 		}
 		if c.Raw.Pos == "trl-only" {
 			if status.Code(res.Err) != c09EndCode || status.Convert(res.Err).Message() != c09EndMsg {
-				k.viol(fmt.Sprintf("raw-valid-rejected/%s/%q/%q", c.Raw.Pos, c.Raw.Wire, c.Raw.Extras), "well-formed trailers-only response: client got %v", res.Err)
+				k.viol(fmt.Sprintf("raw-valid-rejected/%s/%s", c.Raw.Pos, c09WireKey(c.Raw)), "well-formed trailers-only response: client got %v", res.Err)
 				return
 			}
 		} else if res.Err != nil {
-			k.viol(fmt.Sprintf("raw-valid-rejected/%s/%q/%q", c.Raw.Pos, c.Raw.Wire, c.Raw.Extras), "well-formed response: client got %v", res.Err)
+			k.viol(fmt.Sprintf("raw-valid-rejected/%s/%s", c.Raw.Pos, c09WireKey(c.Raw)), "well-formed response: client got %v", res.Err)
 			return
 		}
 		switch c.Raw.Pos {
@@ -951,7 +969,7 @@ func c09AllCases(thorough bool) []c09Case {
 		m2, m3 := c09CM2, c09CM3
 		if thorough {
 			m2 = append(append([]c09Pair{}, c09CM2...), c09Pairs([]string{"a", "A", "a-bin", "k.1_-", "grpc-x", "te", ":path", "a b", ""}, []string{"empty", "eacute", "blob"})...)
-			m3 = c09CM2
+			m3 = append(append([]c09Pair{}, c09CM2...), c09Pair{"k.1_-", "spv"}, c09Pair{"a-bin", "empty"}, c09Pair{"", "v"}, c09Pair{"grpc-encoding", "v"})
 		}
 		c09Seqs(clientOps, m2, 2, nil, func(p []c09Call) { out = append(out, c09Case{Leg: "rr", Shape: sh, End: "ok", Client: p}) })
 		c09Seqs(clientOps, m3, 3, nil, func(p []c09Call) { out = append(out, c09Case{Leg: "rr", Shape: sh, End: "ok", Client: p}) })
@@ -990,7 +1008,7 @@ func c09AllCases(thorough bool) []c09Case {
 			if end == "ok" || thorough {
 				m3 := c09SM3
 				if thorough {
-					m3 = c09SM2
+					m3 = append(append([]c09Pair{}, c09SM2...), c09Pair{"a-bin", "eacute"}, c09Pair{"te", "v"})
 				}
 				c09Seqs(serverOps, m3, 3, c09ServerLegal, func(p []c09Call) {
 					out = append(out, c09Case{Leg: "rr", Shape: sh, End: end, Client: fixedClient, Server: p})
